@@ -233,6 +233,11 @@ func main() {
 			}
 		}
 		g(c)
+		clMu.Lock()
+		for _, mm := range clMismatches {
+			c.Violate("content-length", "the announced Content-Length is not the length of the body (a real HTTP server truncates the response): "+mm, []string{"# " + strings.SplitN(mm, ":", 2)[0]}, nil)
+		}
+		clMu.Unlock()
 		cleanupVodRoot()
 		_ = os.RemoveAll(filepath.Join(workDir(), "c17", fmt.Sprint(os.Getpid())))
 		must(c.ops.Flush())
